@@ -832,8 +832,12 @@ def build(repo, template_path, canary=False) -> SpliceResult:
             # must equal the text after `text=`; otherwise the unit is undecided (anchor-lost), never an alarm
             want = rest.split('text=', 1)[1].strip()
             lines, lm, info = copy_item(repo, kv['file'], kv['item'], opts, {}, int(kv.get('nth', 0)))
-            got = ' '.join(' '.join(lines).split())
-            if got != ' '.join(want.split()):
+            def _norm(txt):
+                # collapse whitespace OUTSIDE string literals only (the width of "  " is what such a constant is about)
+                toks_n = [t for t in rs.tokenize(txt) if t.kind not in ('ws', 'comment', 'doc')]
+                return ' '.join(t.text for t in toks_n)
+            got = _norm('\n'.join(lines))
+            if got != _norm(want):
                 raise AnchorLost('assert_text: %s in %s is now `%s`, the unit assumes `%s`' % (kv['item'], kv['file'], got, want))
             out.append('// @checked %s:%d `%s`' % (info['file'], info['line_start'], got))
             lmap.append(None)
